@@ -12,6 +12,8 @@ claimed={
              ref="§3 C15", technique=T),
  "C16": dict(text="goa's layer of the router: every value stored by Vars is the captured segment decoded exactly once under its registered name, wildcard rewrite and ResolvePattern are inverse (string-theory lemma), Handle registers the rewritten pattern, the not-found handler writes one 404 fault body. chi's dispatch is an assumed contract.",
              ref="§3 C16", technique=T),
+ "C19": dict(text="Request-ID selection/truncation/non-emptiness for the HTTP middleware closure and the gRPC helper, trace keep/parent/fresh-span and untraced pass-through (HTTP and gRPC), client-side propagation, fixed sampler exact at 0 and 100, response capture status/byte invariants. Adaptive sampler (floats, atomics, time) excluded.",
+             ref="§3 C19", technique=T),
  "C20": dict(text="Sequential discipline whose conjunction implies race freedom of the runtime helpers: frame obligations (no store to captured variables or globals) for per-request closures and lock-state obligations for mutex-protected state. Real schedules and generated servers are not addressed.",
              ref="§3 C20", technique=T),
  "C18": dict(text="Every obligation is a verification condition generated from the SSA of the real functions (MergeErrors, asError, History, StatusCode, ...) against contracts whose ★ clauses are transcribed from the property (merge algebra, status table); discharged for all inputs by z3/cvc5.",
